@@ -69,6 +69,10 @@ func (mt *MemTopics) Subscribe(topic []byte, qos byte, sub interface{}) (byte, e
 		return message.QosFailure, fmt.Errorf("Topic filter cannot be empty")
 	}
 
+	if err := sysTopic(topic); err != nil {
+		return message.QosFailure, err
+	}
+
 	mt.smu.Lock()
 	defer mt.smu.Unlock()
 
@@ -85,6 +89,10 @@ func (mt *MemTopics) Subscribe(topic []byte, qos byte, sub interface{}) (byte, e
 
 // Unsubscribe implements Provider.
 func (mt *MemTopics) Unsubscribe(topic []byte, sub interface{}) error {
+	if err := sysTopic(topic); err != nil {
+		return err
+	}
+
 	mt.smu.Lock()
 	defer mt.smu.Unlock()
 
@@ -103,11 +111,19 @@ func (mt *MemTopics) Subscribers(topic []byte, qos byte, subs *[]interface{}, qo
 	*subs = (*subs)[0:0]
 	*qoss = (*qoss)[0:0]
 
+	if err := sysTopic(topic); err != nil {
+		return err
+	}
+
 	return mt.sroot.smatch(topic, qos, subs, qoss)
 }
 
 // Retain implements Provider.
 func (mt *MemTopics) Retain(msg *message.PublishMessage) error {
+	if err := sysTopic(msg.Topic()); err != nil {
+		return err
+	}
+
 	mt.rmu.Lock()
 	defer mt.rmu.Unlock()
 
@@ -123,10 +139,22 @@ func (mt *MemTopics) Retain(msg *message.PublishMessage) error {
 
 // Retained implements Provider.
 func (mt *MemTopics) Retained(topic []byte, msgs *[]*message.PublishMessage) error {
+	if err := sysTopic(topic); err != nil {
+		return err
+	}
+
 	mt.rmu.RLock()
 	defer mt.rmu.RUnlock()
 
 	return mt.rroot.rmatch(topic, msgs)
+}
+
+// sysTopic refuses topic names and filters that begin with '$'.
+func sysTopic(topic []byte) error {
+	if len(topic) > 0 && topic[0] == '$' {
+		return fmt.Errorf("memtopics: Cannot publish to $ topics")
+	}
+	return nil
 }
 
 // Close implements Provider.
@@ -492,8 +520,11 @@ func nextTopicLevel(topic []byte) ([]byte, []byte, error) {
 			s = stateSWC
 
 		case '$':
-			if i == 0 {
-				return nil, nil, fmt.Errorf("memtopics/nextTopicLevel: Cannot publish to $ topics")
+			// Only a '$' at the very beginning of a topic marks a system topic (the
+			// callers check that, see sysTopic). In any other level it is a character
+			// like any other.
+			if s == stateMWC || s == stateSWC {
+				return nil, nil, fmt.Errorf("memtopics/nextTopicLevel: Wildcard characters '#' and '+' must occupy entire topic level")
 			}
 
 			s = stateSYS
